@@ -22,6 +22,7 @@ import (
 	"strings"
 	"time"
 
+	"seehuhn.de/go/geom/rect"
 	"seehuhn.de/go/postscript"
 	"seehuhn.de/go/postscript/afm"
 	"seehuhn.de/go/postscript/type1"
@@ -181,6 +182,72 @@ func workloads() []workload {
 	ws = append(ws, workload{"type1.Read(nested seac chain)", func() string {
 		return observe.Run("font", bytes.NewReader(nestedSeacFont())).Obs
 	}})
+	// several fonts in one file: whatever Read makes of it, it must not depend on
+	// the order of the font directory
+	for _, names := range [][]string{{"One", "Two"}, {"Two", "One", "Mid"}, {"Same", "Same"}} {
+		names := names
+		for _, format := range []type1.FileFormat{type1.FormatNoEExec, type1.FormatPFA} {
+			format := format
+			ws = append(ws, workload{fmt.Sprintf("type1.Read(%d fonts %v in one file, %s)", len(names), names, corpus.FormatName(format)), func() string {
+				var b bytes.Buffer
+				for i, nm := range names {
+					f := fontWith(2 + i)
+					f.FontName = nm
+					f.FullName = nm
+					if g := f.Glyphs["space"]; g != nil {
+						g.WidthX = float64(100 * (i + 1))
+					}
+					if err := f.Write(&b, &type1.WriterOptions{Format: format}); err != nil {
+						return err.Error()
+					}
+				}
+				return observe.Run("font", bytes.NewReader(b.Bytes())).Obs
+			}})
+		}
+	}
+	// blank glyphs (all-zero box) next to glyphs whose boxes do not cover the origin
+	for _, shift := range [][2]float64{{40, 10}, {-700, -800}, {40, -800}} {
+		shift := shift
+		ws = append(ws, workload{fmt.Sprintf("Metrics.Write(blank glyphs, boxes shifted by %v)", shift), func() string {
+			m := metricsWith(2, 5)
+			for nm, g := range m.Glyphs {
+				if nm == "space" || nm == ".notdef" {
+					g.BBox = rect.Rect{}
+					continue
+				}
+				w, h := g.BBox.URx-g.BBox.LLx, g.BBox.URy-g.BBox.LLy
+				if w <= 0 {
+					w = 100
+				}
+				if h <= 0 {
+					h = 100
+				}
+				g.BBox = rect.Rect{LLx: shift[0], LLy: shift[1], URx: shift[0] + w, URy: shift[1] + h}
+			}
+			var b bytes.Buffer
+			err := m.Write(&b)
+			return fmt.Sprintf("FontBBoxPDF=%v written=%q err=%v", m.FontBBoxPDF(), b.Bytes(), err)
+		}})
+	}
+	for _, shift := range [][2]float64{{40, 10}, {-700, -800}} {
+		shift := shift
+		ws = append(ws, workload{fmt.Sprintf("Font boxes(blank glyphs, outlines shifted by %v)", shift), func() string {
+			f := fontWith(4)
+			for _, nm := range []string{"A", "B"} {
+				g := f.NewGlyph(nm, 500)
+				g.MoveTo(shift[0], shift[1])
+				g.LineTo(shift[0]+100, shift[1])
+				g.LineTo(shift[0]+100, shift[1]+200)
+				g.ClosePath()
+			}
+			for _, nm := range []string{".notdef", "space"} {
+				f.NewGlyph(nm, 250)
+			}
+			var b bytes.Buffer
+			err := f.Write(&b, nil)
+			return fmt.Sprintf("FontBBox=%v FontBBoxPDF=%v written=%q err=%v", f.FontBBox(), f.FontBBoxPDF(), b.Bytes(), err)
+		}})
+	}
 	ws = append(ws, workload{"ReadCMap(3 CMaps, one with the empty name)", func() string {
 		var sb strings.Builder
 		for _, name := range []string{"Beta", "", "Alpha"} {
